@@ -158,6 +158,7 @@ func (r *result) answer(exact bool) string {
 }
 
 const relTol = 1e-9
+const absTol = 1e-9
 
 func closeEnough(a, b float64) bool {
 	if math.IsNaN(a) || math.IsNaN(b) {
@@ -171,11 +172,11 @@ func closeEnough(a, b float64) bool {
 	}
 	d := math.Abs(a - b)
 	m := math.Max(math.Abs(a), math.Abs(b))
-	return d <= relTol*m || d <= 1e-300
+	return d <= relTol*m || d <= absTol
 }
 
 // diffResults: "" when equal under the spec (same series, label sets, timestamps exactly;
-// values with relative tolerance 1e-9, NaN = NaN, infinities equal), else a description and
+// values with relative tolerance 1e-9 or absolute 1e-9, NaN = NaN, infinities equal), else a description and
 // a coarse kind: err | series | timestamps | values.
 func diffResults(got, want *result) (kind, desc string) {
 	if got.err != "" || want.err != "" {
